@@ -626,8 +626,8 @@ func (run *CheckRun) Report(e *Engine, writeBaseline, verbose bool) int {
 	}
 	// stand-ins (thorough tier): exhaustive / bounded evaluation of the REAL code for an obligation the
 	// solvers do not decide. Never counted as proved; a failing input is a confirmed violation.
-	if run.Tier == "thorough" {
-		sis, siViol := runStandIns(id)
+	{
+		sis, siViol := runStandIns(id, run.Tier)
 		if len(sis) > 0 {
 			ev["coverage"].(map[string]interface{})["stand_ins_not_counted_as_proved"] = sis
 			for _, v := range siViol {
@@ -720,7 +720,7 @@ func (e *Engine) funcByShort(short string) *ssa.Function {
 
 // runStandIns runs /verif/standins/<id>_*_test.go.txt as an in-package test of /repo (overlay, nothing is
 // written into /repo). The test prints STANDIN-FAIL lines for failing inputs and one STANDIN-DONE line.
-func runStandIns(id string) ([]map[string]interface{}, []string) {
+func runStandIns(id, tier string) ([]map[string]interface{}, []string) {
 	files, _ := filepath.Glob(filepath.Join(verifDir, "standins", id+"_*_test.go.txt"))
 	var out []map[string]interface{}
 	var viol []string
@@ -728,6 +728,18 @@ func runStandIns(id string) ([]map[string]interface{}, []string) {
 		src, err := os.ReadFile(f)
 		if err != nil {
 			continue
+		}
+		if tier != "thorough" {
+			// the quick tier runs only the stand-ins that declare `// tier: quick` (a few seconds each)
+			quick := false
+			for _, ln := range strings.SplitN(string(src), "\n", 5) {
+				if strings.TrimSpace(ln) == "// tier: quick" {
+					quick = true
+				}
+			}
+			if !quick {
+				continue
+			}
 		}
 		pkgdir := "."
 		if ls := strings.SplitN(string(src), "\n", 2); strings.HasPrefix(ls[0], "// pkgdir:") {
